@@ -45,6 +45,9 @@ def transform(t, v, env, rng, kinds, wide):
         return "(" + " ".join(["list"] + items) + ")"
     return genmod.val_sexp(t, v, env)
 
+# the noise transformation must also meet values whose last octet has no significant bit set
+EXTRA_VALUES = {("CAN", "BsZ"): [(b"\x00", 4), (b"\x12\x34\x00", 1), (b"\x80\x00", 6), (b"\x00", 7), (b"\xff\x00", 1), (b"\x00\x00", 3)]}
+
 def run(ctx):
     ctx.lean()
     gfind.replay_witnesses(ctx)
@@ -61,6 +64,7 @@ def run(ctx):
             {"id": "c", "type": {"k": "BIT STRING", "size": None}},
             {"id": "d", "type": {"k": "SET OF", "elem": {"k": "REF", "name": "SoI"}, "size": None}}]}),
         ("BigI", {"k": "INTEGER", "cons": genmod.cons(-(1 << 62), (1 << 62))}),
+        ("BsZ", {"k": "BIT STRING", "size": None}),      # + explicit values whose used bits of the last octet are all 0 (EXTRA_VALUES)
         # DEFAULT-valued extension additions (non-zero defaults: a zero default is stored inline)
         ("SqE", {"k": "SEQUENCE", "ext": 1, "comps": [
             {"id": "a", "type": {"k": "INTEGER", "cons": genmod.cons(0, 255)}},
@@ -80,7 +84,7 @@ def run(ctx):
         lines, meta = [], []
         for n, t in m["types"]:
             feats = gfind.features(t, env)
-            for v in vg.values(t, nvals):
+            for v in EXTRA_VALUES.get((m["name"], n), []) + vg.values(t, nvals):
                 base = genmod.val_sexp(t, v, env)
                 for rep in range(3):
                     kinds = set()
